@@ -15,6 +15,7 @@ import YalafiVerif.Proofs.Inv.Main
 import YalafiVerif.Proofs.Lines
 import YalafiVerif.Proofs.PlainComment
 import YalafiVerif.Generated.Init
+import YalafiVerif.Proofs.PlainFootnote
 namespace Yalafi
 
 /-- tokens returned by `parser_work` (the main flow) are of output classes, whatever the text -/
@@ -72,6 +73,36 @@ theorem C03_comments_example_current :
     Comment.segsOk Generated.theTables Generated.stDefault
       [.txt "Alpha ".toList, .com " note \\secret{x} $".toList, .txt "  beta gamma\n".toList, .com "only".toList,
        .txt "\nDelta. ".toList, .comEof " the end".toList] = true := by
+  decide +kernel
+
+/-- **footnote text is detached and appears exactly once, after the main text**, end to end on the
+    filter model: for documents of inert text and `\\footnote{body}` (inert non-empty body with
+    visible text on its first and last line; no main-text line of white space and footnotes only;
+    `stateOk`: `\\footnote` declared as in the real tables, single-language mode), the output is
+    the main text with every `\\footnote{…}` deleted, followed for each footnote in order by
+    `"\\n\\n\\n" ++ body ++ "\\n"`; main-text and body characters map to their own source positions,
+    the separator to the first character of the body and the final line break to its last token;
+    no unknowns, no diagnostics, no foreign flow -/
+theorem C03_footnote_detached (T : PTables) (o : Options) (fs : FS) (thresh : Nat)
+    (segs : List PlainFootnote.Seg) (fuel : Nat) (st1 : PState)
+    (hdefs : o.defs = []) (hextr : o.extr = []) (hrepl : o.hasRepl = false) (hunkn : o.unkn = false)
+    (hinit : initParser T fuel o (initialState T o false fs) = .ok ((), st1))
+    (hst : PlainFootnote.stateOk T st1 = true) (hok : PlainFootnote.segsOk T st1 segs = true)
+    (hlines : PlainFootnote.linesOK segs = true)
+    (hf : (PlainFootnote.render segs).length + 2 ≤ fuel) :
+    ∃ r, tex2txt T fuel (PlainFootnote.render segs) o false thresh fs = .ok r ∧
+      r.txt = PlainFootnote.mainText segs ++ PlainFootnote.flowsText segs ∧
+      r.txt = (PlainFootnote.refOut segs).map (·.1) ∧
+      r.pos = (PlainFootnote.refOut segs).map (fun cp => cp.2 + 1) ∧
+      r.unknowns = [] ∧ r.diags = st1.diags ∧ r.foreign = false :=
+  PlainFootnote.tex2txt_footnote T o fs thresh segs fuel st1 hdefs hextr hrepl hunkn hinit hst hok hlines hf
+
+/-- the state hypothesis holds for the parser initialised from the tables of the current /repo, and
+    a concrete document satisfies the side conditions -/
+theorem C03_footnote_current :
+    PlainFootnote.stateOk Generated.theTables Generated.stDefault = true ∧
+    PlainFootnote.segsOk Generated.theTables Generated.stDefault
+      [.txt "Alpha".toList, .foot "first note".toList, .txt " beta gamma".toList, .foot "second".toList, .txt ".\n".toList] = true := by
   decide +kernel
 
 end Yalafi
